@@ -662,6 +662,19 @@ Example empty_quoted_text :
                  cmds_of f = [c] /\ singles c = [s""""""].
 Proof. do 3 eexists. repeat split; vm_compute; reflexivity. Qed.
 
+(* finding: inserting a line comment after a parenthesis can turn an accepted file into a
+   rejected one -- an unterminated [[ is lexed as an unquoted argument, and the comment text
+   can supply its terminator (cf. lex_insert_comment_in_context_refuted in LexerFacts) *)
+Example comment_insertion_changes_acceptance :
+  (exists ts f, lex (s"foo([[ " ++ [lpar] ++ s"))") = LexOk ts /\ parse ts = Some f) /\
+  (exists ts, lex (s"foo([[ " ++ [lpar] ++ line_comment (s" ]]") ++ s"))") = LexOk ts /\
+              parse ts = None).
+Proof.
+  split.
+  - do 2 eexists. split; vm_compute; reflexivity.
+  - eexists. split; vm_compute; reflexivity.
+Qed.
+
 (* ==== MAIN THEOREMS ====
    parse_unparse           B1  tokens of an accepted file = the tokens of its tree, in order
    unparse_parse           B2  a well-formed tree is the parse of its token sequence
